@@ -1071,6 +1071,22 @@ func (e *symEnv) exec(st *symState, s ast.Stmt) []*symState {
 					next = append(next, cs)
 					continue
 				}
+				if _, isBuiltinName := ast.Unparen(call.Fun).(*ast.Ident); !isBuiltinName {
+					// cmp.Compare / strings.Compare: -1, 0 or +1 as the first operand is less than,
+					// equal to or greater than the second
+					for side, cond := range []*F{lt(a.Lin, b.Lin), eq(a.Lin, b.Lin), lt(b.Lin, a.Lin)} {
+						for _, cb := range dnf(cond) {
+							ns := cs.clone()
+							ns.cube = append(ns.cube, cb...)
+							if ok, _ := feasible(append(append(Cube{}, e.base...), ns.cube...)); !ok {
+								continue
+							}
+							ns.vars[key] = Val{Lin: linConst(int64(side - 1))}
+							next = append(next, ns)
+						}
+					}
+					continue
+				}
 				isMin := ast.Unparen(call.Fun).(*ast.Ident).Name == "min"
 				for side := 0; side < 2; side++ {
 					ns := cs.clone()
@@ -1148,6 +1164,14 @@ func (e *symEnv) minMaxCallsIn(s ast.Stmt) []*ast.CallExpr {
 		}
 	case *ast.ReturnStmt:
 		exprs = append(exprs, x.Results...)
+	case *ast.SwitchStmt:
+		if x.Tag != nil && x.Init == nil {
+			exprs = append(exprs, x.Tag)
+		}
+	case *ast.IfStmt:
+		if x.Init == nil {
+			exprs = append(exprs, x.Cond)
+		}
 	}
 	var out []*ast.CallExpr
 	for _, ex := range exprs {
@@ -1158,6 +1182,22 @@ func (e *symEnv) minMaxCallsIn(s ast.Stmt) []*ast.CallExpr {
 			if call, ok := n.(*ast.CallExpr); ok && len(call.Args) == 2 {
 				if id, ok := ast.Unparen(call.Fun).(*ast.Ident); ok && (id.Name == "min" || id.Name == "max") {
 					if _, isBuiltin := e.info.Uses[id].(*types.Builtin); isBuiltin {
+						out = append(out, call)
+					}
+				}
+				// the three-way comparisons of the standard library, on integers and strings (for
+				// floating point operands cmp.Compare has an order of its own for NaN: not modelled)
+				if cf := calleeOf(e.info, call); cf != nil && cf.Pkg() != nil && cf.Name() == "Compare" && (cf.Pkg().Path() == "cmp" || cf.Pkg().Path() == "strings") {
+					okT := true
+					for _, a := range call.Args {
+						t := e.info.TypeOf(a)
+						if t == nil || !isNumericOrString(t) {
+							okT = false
+						} else if bt, isB := t.Underlying().(*types.Basic); isB && bt.Info()&(types.IsFloat|types.IsComplex) != 0 {
+							okT = false
+						}
+					}
+					if okT {
 						out = append(out, call)
 					}
 				}
@@ -1624,6 +1664,9 @@ func (e *symEnv) execCore(st *symState, s ast.Stmt) []*symState {
 		}
 		e.problem("loop in a function bound to a SYM rule")
 		return nil
+	}
+	if ds, ok := s.(*ast.DeferStmt); ok && rePanicOnly(e.info, ds) {
+		return []*symState{st} // passes on what it catches, unchanged: nothing to interpret
 	}
 	e.problem("unsupported statement %T", s)
 	return nil
